@@ -303,7 +303,7 @@ func (u *UnitsDefinition) parse(data string) (any, error) {
 			return 0, err
 		}
 	}
-	baseMatchGroup := match[reSubExpNames["g1"]]
+	baseMatchGroup := match[reSubExpNames[baseUnitGroup]]
 	intNumber, floatNumber, isFloat, err = u.handleParseMultiplier(
 		baseMatchGroup,
 		1,
@@ -366,6 +366,11 @@ func (u *UnitsDefinition) handleParseMultiplier(
 	return intNumber, floatNumber, isFloat, nil
 }
 
+// baseUnitGroup names the capture group of the base unit's count in the parsing expression. The groups of the
+// multiplier units are named g<multiplier>; the base unit's group must not be called g1, or a unit with the
+// multiplier 1 (a second name for the base unit) would share its group.
+const baseUnitGroup = "base"
+
 // getReCache returns the parsing expression and the indexes of its named groups, building them on first use.
 func (u *UnitsDefinition) getReCache() (*regexp.Regexp, map[string]int) {
 	sortedMultipliers := u.getSortedMultipliersCache()
@@ -395,7 +400,7 @@ func (u *UnitsDefinition) buildRe(sortedMultipliers []int64) (*regexp.Regexp, ma
 		}
 	}
 	parts = append(parts, fmt.Sprintf(
-		"(?:|(?P<g1>[0-9]+(|\\.[0-9]+))\\s*(|%s|%s|%s|%s))",
+		"(?:|(?P<"+baseUnitGroup+">[0-9]+(|\\.[0-9]+))\\s*(|%s|%s|%s|%s))",
 		regexp.QuoteMeta(u.BaseUnitValue.NameShortSingular()),
 		regexp.QuoteMeta(u.BaseUnitValue.NameShortPlural()),
 		regexp.QuoteMeta(u.BaseUnitValue.NameLongSingular()),
